@@ -287,7 +287,12 @@ impl<'a, D: DependencyProvider> Encoder<'a, D> {
             .or_default()
             .push((requirement, clause_id));
 
-        if conflict {
+        // The clause only conflicts with the current decisions if the solvable is
+        // actually installed. For a solvable that is still undecided (its clauses
+        // are added eagerly when its dependencies are cheaply available) the clause
+        // merely implies that it cannot be installed.
+        let is_installed = self.state.decision_tracker.assigned_value(variable) == Some(true);
+        if conflict && is_installed {
             self.conflicting_clauses.push(clause_id);
         } else if no_candidates {
             // Add assertions for unit clauses (i.e. those with no matching candidates)
@@ -356,8 +361,10 @@ impl<'a, D: DependencyProvider> Encoder<'a, D> {
                 .watches
                 .start_watching(watched_literals, clause_id);
 
-            // Mark conflicting clauses
-            if conflict {
+            // Mark conflicting clauses. If the solvable is still undecided the
+            // clause is not violated, it only implies that the solvable cannot be
+            // installed.
+            if conflict && self.state.decision_tracker.assigned_value(variable) == Some(true) {
                 self.conflicting_clauses.push(clause_id);
             }
         }
